@@ -86,4 +86,12 @@ def replay(path, seed):
         core.write_ndjson(p, [case["record"]])
         out, _ = core.run_vh(["conv-replay", p])
         return 1 if any("mismatch" in o for o in out) else 0
-    return 1
+    # a recorded conversion: execute it again and let TLC judge the fresh result
+    p = os.path.join(tlc.WORK, "conv-one.ndjson")
+    core.write_ndjson(p, [case["record"]])
+    out, _ = core.run_vh(["conv-one", p])
+    core.write_ndjson(p, out)
+    res = tlc.run("trace/TraceConv.tla", "trace/TraceConv.cfg", workers=1, env={"TRACE": p})
+    bad = [x for x in core.tlc_printed_records(res) if "mismatch" in x]
+    print("now:", json.dumps(out)[:600], "-> still violates" if bad else "-> conforms")
+    return 1 if bad else 0
